@@ -15,7 +15,8 @@ from ..rng import Chooser
 from . import geom
 from .common import (ModelGap, Violation, World, base_result, blueprint_probes, compile_case,
                      input_inits, merge_fired, net_signature, probe, skeleton)
-from .twin import Twin, base_group, compare_obs, has_known_structure, inline_calls, observe
+from .twin import (Twin, base_group, compare_free_running, compare_obs, has_known_structure,
+                   inline_calls, observe)
 
 PROP = "C15"
 
@@ -89,6 +90,10 @@ def gen_case(ch: Chooser, tier: str = "quick") -> dict:
                 body.append(["decl", "Signal", "inner", ["call", inner[1], args]])
                 locs.append("inner")
             ret = ["bin", ch.pick(["+", "*", "-"]), ["var", ch.pick(locs)], operand()]
+            if ch.chance(1, 5):
+                # a selection: with a literal argument the condition can be decided at compile time
+                ret = ["sel", ["bin", ch.pick(lang.CMP_OPS), ["var", ch.pick(locs)], operand()],
+                       ["var", ch.pick(locs)]]
             if kind == "place" and ch.chance(1, 3):
                 ret = ["var", "lamp"]          # entity-returning function
             f = ["func", fname, params, body, ret]
@@ -101,6 +106,7 @@ def gen_case(ch: Chooser, tier: str = "quick") -> dict:
         if clash:
             c.stmts.append(["place", "lamp", "small-lamp", ["lit", 44, 10], ["lit", -20, 10], None])
         # call sites
+        _uses_mod[0] = any('"%"' in repr(f_).replace("'", '"') for f_ in funcs)
         n_calls = ch.rint(1, 4)
         for ci in range(n_calls):
             f = ch.pick(funcs)
@@ -117,6 +123,13 @@ def gen_case(ch: Chooser, tier: str = "quick") -> dict:
                 c.stmts.append(["decl", "Signal", nm, ["call", f[1], args]])
                 if ch.chance(1, 3):
                     c.stmts.append(["decl", "Signal", c.fresh("u"), ["bin", "+", ["var", nm], ["lit", 1, 10]]])
+                if ch.chance(1, 3):
+                    # an entity watching the result: entities never fold away, so a result that
+                    # was wrongly frozen into a constant still shows (its anchor would vanish)
+                    w_ = c.fresh("w")
+                    c.stmts.append(["place", w_, "small-lamp", ["lit", 50 + 2 * ci, 10], ["lit", -30, 10], None])
+                    c.stmts.append(["enable", w_, ["bin", ch.pick(lang.CMP_OPS), ["var", nm],
+                                                   ["lit", ch.i32_biased(-20, 20), 10]]])
         if clash:
             c.stmts.append(["enable", "lamp", ["bin", ch.pick(lang.CMP_OPS), g.sig_leaf(),
                                                ["lit", ch.i32_biased(-9, 9), 10]]])
@@ -161,6 +174,9 @@ def gen_case(ch: Chooser, tier: str = "quick") -> dict:
             "plan": gen.gen_plan(ch), "plan_b": gen.gen_plan(ch)}
 
 
+_uses_mod = [False]
+
+
 def _args(ch, f, locs, has_k, g, row, inside: bool):
     args = []
     for pt, pn in f[2]:
@@ -177,7 +193,11 @@ def _args(ch, f, locs, has_k, g, row, inside: bool):
             if inside:
                 args.append(["var", ch.pick(locs)] if r else ["lit", ch.rint(1, 9), 10])
             elif r == 0:
-                args.append(["lit", ch.i32_biased(-20, 20), 10])          # int -> Signal coercion
+                # int -> Signal coercion; everything the callee computes from it is folded at
+                # compile time, so a negative dividend of `%` would test C11 (folder vs run-time
+                # arithmetic, not claimed) instead of this property
+                lo = 0 if _uses_mod[0] else -20
+                args.append(["lit", ch.i32_biased(lo, 20), 10])
             elif r == 1:
                 args.append(["bin", ch.pick(["+", "*"]), g.sig_leaf(), ["lit", ch.rint(1, 5), 10]])
             else:
@@ -256,22 +276,7 @@ def run_case(case: dict) -> dict:
         blueprint_probes(res, wa)
         excl = set(case.get("exclude") or [])
         probe(res, "stateful_body" if case.get("stateful") else "stateless_body")
-        if case.get("stateful") and "call-memory" in excl:
-            res["status"] = "excluded"
-            res["excluded_by"] = "call-memory"
-            return res
-        if "const-signal-arg" in excl and _const_signal_arg(stmts):
-            res["status"] = "excluded"
-            res["excluded_by"] = "const-signal-arg"
-            return res
-        if "const-enable" in excl:
-            from .c06 import _const_enable
-
-            if _const_enable(tw_stmts, case["inputs"]):
-                res["status"] = "excluded"
-                res["excluded_by"] = "const-enable"
-                return res
-        tw = Twin([wa, wb])
+        tw = Twin([wa, wb], [src_a, src_b])
         if "crosstalk" in excl and (has_known_structure(wa, tw.obs[0], True)
                                     or has_known_structure(wb, tw.obs[1], True)):
             res["status"] = "excluded"
@@ -287,12 +292,11 @@ def run_case(case: dict) -> dict:
             vals.update({k: v for k, v in step.items() if not k.startswith("__")})
             tw.set_inputs(vals)
             if case.get("stateful"):
-                for _t in range(12):
-                    oa, ob = observe(wa, tw.obs[0], base_group), observe(wb, tw.obs[1], base_group)
-                    compare_obs(oa, ob, res, {"step": si, "tick": _t, "inputs": dict(vals)},
-                                "call-differs-from-inlining", first_may_expose_fewer=True)
-                    wa.step(); wb.step()
-                res["ticks"] += 24
+                # local counters never rest and the inlined twin may have other latencies (its
+                # `Signal x = 4;` is a declared circuit input, the call's argument a literal)
+                res["ticks"] += 2 * compare_free_running(
+                    tw, res, {"step": si, "inputs": dict(vals)}, "call-differs-from-inlining",
+                    group=base_group, first_may_expose_fewer=True)
                 continue
             ts = tw.settle_all()
             res["ticks"] += sum(t or 0 for t in ts)
